@@ -101,3 +101,76 @@ Fixpoint mon_run (p : program) (ms : mstate) (obs : list observation) : bool :=
   end.
 
 Definition c13_monitor (p : program) (obs : list observation) : bool := mon_run p (mon_init p) obs.
+
+(* ---- vocabulary of the C13 statements (Props/C13.v) ---- *)
+Definition results (obs : list observation) : list poll_result := map o_res obs.
+
+Definition yvals (rs : list poll_result) : list N :=
+  flat_map (fun r => match r with RYielded x => [x] | _ => [] end) rs.
+
+Definition running_result (r : poll_result) : Prop :=
+  match r with RPendingP | RYielded _ => True | _ => False end.
+
+(* the operations finished during each poll are exactly the ones the program
+   counter moved past: pc_before, ..., pc_after - 1 *)
+Fixpoint logs_ok (pc : nat) (l : list (observation * gstate)) : Prop :=
+  match l with
+  | [] => True
+  | (o, st) :: l' =>
+      (pc <= t_pc (g_task st))%nat /\
+      o_done o = map N.of_nat (seq pc (t_pc (g_task st) - pc)) /\
+      logs_ok (t_pc (g_task st)) l'
+  end.
+
+(* A consumer in the style of every executor: it polls again after Ready(Some _),
+   and after Pending / None only once the root waker has been woken (during that
+   poll, or later by a completed external event).  `may` = the previous poll
+   entitles it to poll again (true before the first poll). *)
+Definition warrants_next (o : observation) : bool :=
+  o_wd o || match o_res o with RYielded _ | RComplete _ => true | _ => false end.
+
+Fixpoint disciplined (may : bool) (obs : list observation) : bool :=
+  match obs with
+  | [] => true
+  | o :: obs' => (may || o_wb o) && disciplined (warrants_next o) obs'
+  end.
+
+(* at the end of the schedule the consumer has nothing left to react to:
+   the last poll does not entitle it to another one and no wake-up is outstanding *)
+Fixpoint idle_end (st : gstate) (may : bool) (s : schedule) : Prop :=
+  match s with
+  | [] => may = false /\ m_woken (g_m st) = false
+  | Complete k :: s' => idle_end (with_m (complete_m k) st) may s'
+  | Poll :: s' =>
+      let '(st1, r) := poll_next (with_m (fun m => set_log [] (set_woken false m)) st) in
+      idle_end (with_m (set_woken false) st1) (warrants_next (observe (m_woken (g_m st)) r st1)) s'
+  end.
+
+(* the wake-ups a program can cause: one per item, per SelfWake, per Wait, one for closing the channel *)
+Fixpoint wake_sources (ops : list op) : nat :=
+  match ops with
+  | [] => 0
+  | Yield _ :: r => 1 + wake_sources r
+  | YieldAll xs :: r => length xs + wake_sources r
+  | SelfWake :: r => 1 + wake_sources r
+  | Wait _ :: r => 1 + wake_sources r
+  | DropHandle :: r => wake_sources r
+  end.
+
+Definition wake_budget (p : program) : nat := wake_sources (p_ops p) + 1.
+
+Fixpoint item_count (ops : list op) : nat :=
+  match ops with
+  | [] => 0
+  | Yield _ :: r => 1 + item_count r
+  | YieldAll xs :: r => length xs + item_count r
+  | _ :: r => item_count r
+  end.
+
+(* The shape of every result sequence: while running, only Pending and Yielded,
+   the yielded values being a prefix of `pend` in order; if the run gets further,
+   all of `pend` has been yielded, then exactly one Complete ret, then only None. *)
+Definition stream_shape (pend : list N) (ret : N) (rs : list poll_result) : Prop :=
+  exists pre post, rs = pre ++ post /\ Forall running_result pre /\
+    ((post = [] /\ exists later, pend = yvals pre ++ later) \/
+     (exists n, post = RComplete ret :: repeat RStreamEnd n /\ yvals pre = pend)).
